@@ -96,7 +96,7 @@ _EVO_ASSUME = COMMON_ASSUMPTIONS + [
     "accuracy bounds are asserted only when the bond limit (and, for one-site TDVP schemes, the input bonds) reach the exact ranks and x=||H|||dt| is in [0.02,0.5]; bounds and their measured/allowed maxima are listed in the evidence",
 ]
 _EVO_SEAMS = _CHAIN_SEAMS + ["SimClock (time-dependent Hamiltonian callback records sample times)", "config history (guess_dt / auto-switched method carried by objects and copies)"]
-register("C09", "simlab.profiles.c09", "exploration", budgets={"quick": dict(runs=320, timeout=300), "thorough": dict(runs=12000, timeout=600)},
+register("C09", "simlab.profiles.c09", "exploration", budgets={"quick": dict(runs=1600, timeout=300), "thorough": dict(runs=60000, timeout=600)},
          rule=_EVO_RULE, assumptions=_EVO_ASSUME, seams=_EVO_SEAMS, design_ref="4/C09")
-register("C10", "simlab.profiles.c10", "exploration", budgets={"quick": dict(runs=320, timeout=300), "thorough": dict(runs=12000, timeout=600)},
+register("C10", "simlab.profiles.c10", "exploration", budgets={"quick": dict(runs=1600, timeout=300), "thorough": dict(runs=60000, timeout=600)},
          rule=_EVO_RULE, assumptions=_EVO_ASSUME, seams=_EVO_SEAMS, design_ref="4/C10")
